@@ -62,20 +62,58 @@ func sharded(t *testing.T, testName string, nShards int) (int, int, bool) {
 		return 0, 1, true
 	}
 	var wg sync.WaitGroup
+	var solo sync.Mutex
 	outs := make([]string, nShards)
 	errs := make([]error, nShards)
+	runChild := func(i int, out string, extra ...string) ([]byte, error) {
+		args := append([]string{"-test.run", "^" + testName + "$", "-test.timeout", "0", "-out", out,
+			"-seed", fmt.Sprint(*flagSeed), "-tier", *flagTier}, extra...)
+		cmd := exec.Command(os.Args[0], args...)
+		cmd.Env = append(os.Environ(), fmt.Sprintf("CL_SHARD=%d/%d", i, nShards))
+		return cmd.CombinedOutput()
+	}
 	for i := 0; i < nShards; i++ {
 		outs[i] = fmt.Sprintf("%s.shard%d", *flagOut, i)
 		os.Remove(outs[i])
 		wg.Add(1)
 		go func(i int) {
 			defer wg.Done()
-			cmd := exec.Command(os.Args[0], "-test.run", "^"+testName+"$", "-test.timeout", "0", "-out", outs[i],
-				"-seed", fmt.Sprint(*flagSeed), "-tier", *flagTier, "-from", fmt.Sprint(*flagFrom))
-			cmd.Env = append(os.Environ(), fmt.Sprintf("CL_SHARD=%d/%d", i, nShards))
-			out, err := cmd.CombinedOutput()
-			if err != nil {
-				errs[i] = fmt.Errorf("shard %d: %v: %s", i, err, tail(string(out), 1500))
+			from := *flagFrom
+			for {
+				out, err := runChild(i, outs[i], "-from", fmt.Sprint(from))
+				if err == nil {
+					return
+				}
+				// the shard died (crash, or the shared rig's watchdog declared a wedge: exit status 3). Under load the
+				// watchdog can misfire: the scenario is re-run alone, one at a time; only if it fails alone too is it
+				// reported, otherwise its record is kept and the shard resumes after it.
+				idx := lastOpenBegin(outs[i])
+				if idx < from {
+					errs[i] = fmt.Errorf("shard %d: %v: %s", i, err, tail(string(out), 1500))
+					return
+				}
+				ok := false
+				solo.Lock()
+				for t := 0; t < 2 && !ok; t++ {
+					retry := outs[i] + ".retry"
+					os.Remove(retry)
+					if _, e2 := runChild(i, retry, "-only", fmt.Sprint(idx)); e2 == nil {
+						if b, e3 := os.ReadFile(retry); e3 == nil {
+							if f, e4 := os.OpenFile(outs[i], os.O_WRONLY|os.O_APPEND, 0o644); e4 == nil {
+								f.Write(b)
+								f.Close()
+								ok = true
+							}
+						}
+					}
+					os.Remove(retry)
+				}
+				solo.Unlock()
+				if !ok {
+					errs[i] = fmt.Errorf("shard %d: scenario %d fails when run alone too: %v: %s", i, idx, err, tail(string(out), 1500))
+					return
+				}
+				from = idx + 1
 			}
 		}(i)
 	}
@@ -104,4 +142,35 @@ func tail(s string, n int) string {
 		return s[len(s)-n:]
 	}
 	return s
+}
+
+// lastOpenBegin returns the index of the last scenario of an output file whose
+// begin marker has no end marker (-1 if none).
+func lastOpenBegin(path string) int {
+	b, err := os.ReadFile(path)
+	if err != nil {
+		return -1
+	}
+	open := -1
+	for _, line := range bytes.Split(b, []byte("\n")) {
+		if !bytes.HasPrefix(line, []byte(`{"marker"`)) {
+			continue
+		}
+		var m struct {
+			Marker string `json:"marker"`
+			Idx    int    `json:"idx"`
+		}
+		if json.Unmarshal(line, &m) != nil {
+			continue
+		}
+		switch m.Marker {
+		case "begin":
+			open = m.Idx
+		case "end":
+			if m.Idx == open {
+				open = -1
+			}
+		}
+	}
+	return open
 }
